@@ -1,0 +1,14 @@
+//go:build !verif
+
+package verifhook
+
+import "context"
+
+// Enabled reports whether hooks are compiled in.
+func Enabled() bool { return false }
+
+// At is a no-op without the "verif" build tag.
+func At(string, ...string) {}
+
+// Name is a no-op without the "verif" build tag.
+func Name(context.Context) string { return "" }
